@@ -689,6 +689,14 @@ func (e *enc) evalCall(n *SCall, env *Env) SVal {
 			}
 		}
 		env.fail("addrof(%s): no such local", id.name)
+	case "fresh":
+		// fresh(x): x (a pointer, or the backing array of a slice) was allocated by this activation
+		// (it is not memory the caller or anybody else already held)
+		a := arg(0)
+		if a.sort == "Slice" {
+			return SVal{t: fmt.Sprintf("(< (root (sarr %s)) 0)", a.t), sort: "Bool"}
+		}
+		return SVal{t: fmt.Sprintf("(< (root %s) 0)", a.t), sort: "Bool"}
 	case "isvar":
 		// isvar(p): p points to a whole variable (not to a field of a struct nor to an array element)
 		return SVal{t: fmt.Sprintf("((_ is alloc) %s)", arg(0).t), sort: "Bool"}
